@@ -166,3 +166,10 @@ LIB_TEMPLATES += [
     # 16: state the library keeps in module variables that only its functions write (global) and only clients read
     "CACHE_dir = None\n\n\ndef init():\n    global CACHE_dir\n    CACHE_dir = '/tmp/x'\n\n\ndef bump():\n    global hitCount\n    hitCount = 1\n\n\nclass Conf:\n    def load(self):\n        global lastLoaded\n        lastLoaded = 'conf'\n        return self\n",
 ]
+
+LIB_TEMPLATES += [
+    # 17-19: class members named `_` (an attribute, a method, an annotated attribute): safe mode preserves them as `Class._`
+    "class Marker:\n    _ = 3\n\n\ndef make():\n    return Marker()\n",
+    "class Handler:\n    _ = 3\n    limit = 2\n\n    def _(self):\n        return 1\n\n    def run(self):\n        return self.limit\n",
+    "class Slot:\n    _: int = 3\n    name = 'slot'\n\n    def label(self):\n        return self.name\n",
+]
